@@ -24,11 +24,11 @@ PROPS["C02"] = {
     "project": _proj,
     "claim": ('THEOREMS (Lean kernel, no sorry): (A) C02_all_schedules - in the lock-level model Qfx.Conc (thread 0 = session goroutine running any list of '
               'sendInReplyTo / dropAndSendInReplyTo / SendAppMessages / dropAndReset / EnqueueBytesAndSend / resendMessages calls with any flush outcomes, any number of '
-              'application threads each calling queueForSend any number of times, every entry point a program of atomic steps with readSeq and persist as SEPARATE steps, '
+              'foreign goroutines each running any sequence of SendToTarget (queueForSend) and ResetSession (ShutdownNow\'s Logout through sendInReplyTo on the caller\'s goroutine, then dropAndReset) calls, every entry point a program of atomic steps with readSeq and persist as SEPARATE steps, '
               'sync.Mutex / sync.RWMutex enabledness) the monitor MonitorC02 accepts the event trace of EVERY schedule of any length: numbers handed out consecutive with no gap or '
               'repeat and store.next = last+1, first-time messages on the wire in increasing order per epoch, with persistence every first-time write of n after the store saved n, '
               'no first-time write between the replayed messages of one ResendRequest answer; C02_final_store - the store equals what the trace says after every schedule; '
-              'three kernel-decided witnesses that the statement is FALSE without sendMutex, without resendMutex.RLock, and with persist after the flush; '
+              'four kernel-decided witnesses that the statement is FALSE without sendMutex, without resendMutex.RLock in queueForSend, without it in sendInReplyTo (operator calling ResetSession during a replay), and with persist after the flush; '
               'the programs are pinned to the regenerated lock skeletons of the source (C02_skel_*, C02_send_path_functions). (B) C02_seq - in the sequential session model '
               '(the one the correspondence check compares with the real session event by event) for ALL configurations and ALL event histories: every save happens at the tracked next '
               'outbound number which then advances by one, reset => 1, the tracked number is the store\'s at the end, and with persistence every first-time write (admin or application) '
@@ -38,7 +38,7 @@ PROPS["C02"] = {
     "note": ('Lean kernel + propext/Classical.choice/Quot.sound. ASSUMED: the Go memory model and sync.Mutex / sync.RWMutex semantics as modelled (lockS enabled iff no holder, rlockR iff no writer, '
              'lockR iff no writer and no readers - a superset of Go\'s schedules); atomicity at the granularity of lock operations and protected actions (the steps of Qfx.Conc.Step); '
              'store operations succeed; the application does not submit a Logon with ResetSeqNumFlag through SendToTarget; only the session goroutine calls the session-side entry points '
-             '(ResetSession from another goroutine is outside the model). TIE: harness/extract.go regenerates the source-order lock/protected-action skeleton of every send-path function '
+             '(ResetSession from another goroutine is IN the model; its unsynchronised reads of session.State are not). TIE: harness/extract.go regenerates the source-order lock/protected-action skeleton of every send-path function '
              'on every run; Props/C02.lean proves each equals the model program (removing or reordering a lock breaks a named obligation => VIOLATION, after the stress family has searched '
              'for a failing round); the sequential model is tied by the sess correspondence (store mutations, wire writes, sender counter per event). Defect fixed on the way: '
              'handleLogon / Connect reset the store outside sendMutex and without dropping the queue (repo commit "fix: Logon-triggered sequence resets drop the send queue under the send lock").'),
